@@ -35,11 +35,13 @@ ChildProp(e, a, d, x) == [num |-> 1, proto |-> 3, spi |-> << 1, 2, 3, 4 >>,
 RECURSIVE ByType(_, _)
 ByType(trs, tt) == SelectSeq(trs, LAMBDA t : t.tt = tt)
 Sorted(trs) == ByType(trs, 1) \o ByType(trs, 2) \o ByType(trs, 3) \o ByType(trs, 4) \o ByType(trs, 5)
+AltBits(b) == IF b = 128 THEN 256 ELSE IF b = 192 THEN 128 ELSE 192
 IkePropVector(su, grp, wire) ==
   LET p == IkeProp(su, grp) IN
-  Vector("ikeprop", << Step("proposal_roundtrip", "C11", FALSE, [kind |-> "ike", prop |-> p, wire |-> wire],
+  Vector("ikeprop", << Step("proposal_roundtrip", "C11", FALSE, [kind |-> "ike", prop |-> p, wire |-> wire, alt |-> AltBits(su.encr)],
       [panic |-> FALSE, err |-> FALSE, encr |-> AesName(su.encr), integ |-> su.integ, prf |-> su.prf, dh |-> "modp-" \o ToString(grp),
-       back |-> Sorted(p.tr), backproto |-> 1, appendsafe |-> TRUE]) >>
+       back |-> Sorted(p.tr), backproto |-> 1, appendsafe |-> TRUE,
+       back2 |-> Sorted([j \in 1..Len(p.tr) |-> IF p.tr[j].tt = 1 THEN [p.tr[j] EXCEPT !.av = AltBits(su.encr)] ELSE p.tr[j]])]) >>
     \o  \* the same proposal with one element replaced by an unsupported one, or removed: building the SA must fail
     [i \in 1..4 |-> Step("proposal_roundtrip", "C11", FALSE,
         [kind |-> "ike", prop |-> [p EXCEPT !.tr = [j \in 1..4 |-> IF j = i THEN [p.tr[j] EXCEPT !.tid = IF i = 1 THEN 13 ELSE 9] ELSE p.tr[j]]], wire |-> wire],
